@@ -21,7 +21,8 @@ type ssrcSequenceNumber struct {
 // by their combination of RTP sequence number and SSRC. When feedback arrives,
 // calls to onFeedback will update the status of each packet included in the
 // report. buildReport can be used to create a new report including all packets
-// from nextReport to highestAcked.
+// from nextReport to highestAcked. highestAcked is only meaningful once a packet
+// has been acknowledged as arrived (acked).
 type history struct {
 	lock               sync.RWMutex
 	counter            uint64
@@ -29,6 +30,7 @@ type history struct {
 	ssrcSeqNrToCounter map[ssrcSequenceNumber]uint64
 
 	packets      map[uint64]*PacketReport
+	acked        bool
 	highestAcked uint64
 	nextReport   uint64
 
@@ -42,6 +44,7 @@ func newHistory() *history {
 		twccToCounter:      map[uint16]uint64{},
 		ssrcSeqNrToCounter: map[ssrcSequenceNumber]uint64{},
 		packets:            make(map[uint64]*PacketReport),
+		acked:              false,
 		highestAcked:       0,
 		nextReport:         0,
 		cleanUntil:         0,
@@ -95,8 +98,11 @@ func (h *history) onFeedback(ts time.Time, counter uint64, ack acknowledgement) 
 		return 0, false
 	}
 	p.Arrived = ack.arrived
-	if p.Arrived && h.highestAcked < p.SequenceNumber {
-		h.highestAcked = p.SequenceNumber
+	if p.Arrived {
+		h.acked = true
+		if h.highestAcked < p.SequenceNumber {
+			h.highestAcked = p.SequenceNumber
+		}
 	}
 	p.Arrival = ack.arrival
 	p.ECN = ack.ecn
@@ -138,7 +144,8 @@ func (h *history) onCCFBFeedback(ts time.Time, ssrc uint32, ack acknowledgement)
 }
 
 // buildReport builds a report containing all packets up to the highest
-// acknowledged packet that were not included in a previous report.
+// acknowledged packet that were not included in a previous report. Before the
+// first packet has been acknowledged as arrived, there is nothing to report.
 // TODO: Implement adaptive re-order window. Packets may arrive out of order. In
 // that case, they will be reported as lost. Instead of reporting them lost, we
 // could wait for a short time. In some cases, reordered packets will then be
@@ -149,7 +156,7 @@ func (h *history) buildReport() []PacketReport {
 	h.lock.Lock()
 	defer h.lock.Unlock()
 
-	if h.nextReport > h.highestAcked {
+	if !h.acked || h.nextReport > h.highestAcked {
 		return nil
 	}
 	res := make([]PacketReport, 0, h.highestAcked-h.nextReport+1)
@@ -183,7 +190,7 @@ func (h *history) delete(p *PacketReport) {
 	delete(h.packets, p.SequenceNumber)
 }
 
-// cleanBefore removes all entries in the interval [h.cleanBefore, counter).
+// cleanBefore removes all entries in the interval [h.cleanUntil, counter).
 // cleanBefore must be called while holding the lock for writing, because it
 // calls out to delete.
 func (h *history) cleanBefore(counter uint64) {
@@ -192,5 +199,5 @@ func (h *history) cleanBefore(counter uint64) {
 			h.delete(p)
 		}
 	}
-	h.cleanUntil = counter - 1
+	h.cleanUntil = counter
 }
